@@ -136,6 +136,43 @@ Section CacheFacts.
     rewrite slashes_app, file_name_slashes in E. simpl in E. lia.
   Qed.
 
+  (* two sub-caches of one cache with different names - of one or of several components, also names that end in
+     the same component or look like a bucket - never use the same file *)
+  Lemma app_same_length_inj {A} (a c b d : list A) :
+    List.length b = List.length d -> a ++ b = c ++ d -> a = c /\ b = d.
+  Proof.
+    revert c. induction a as [|x a IH]; intros [|y c] Hl E; simpl in E.
+    - now split.
+    - exfalso. apply (f_equal (@List.length A)) in E. simpl in E. rewrite app_length in E. lia.
+    - exfalso. apply (f_equal (@List.length A)) in E. simpl in E. rewrite app_length in E. lia.
+    - injection E as -> E. destruct (IH c Hl E) as [-> ->]. now split.
+  Qed.
+
+  Lemma file_tail_length key :
+    List.length (lit "/" ++ firstn 5 (H key) ++ lit "/" ++ skipn 5 (H key) ++ lit ".json") = 71.
+  Proof.
+    destruct (hash_shape key) as [Hl _].
+    rewrite !app_length, firstn_length, skipn_length, Hl. reflexivity.
+  Qed.
+
+  Theorem sibling_subcaches_disjoint c n1 n2 k1 k2 :
+    n1 <> n2 -> cpath H (subcache c n1) k1 <> cpath H (subcache c n2) k2.
+  Proof.
+    intros Hne E. unfold cpath, subcache in E. cbn [ca_dir] in E.
+    rewrite <- !app_assoc in E. apply app_inv_head in E. apply app_inv_head in E.
+    apply app_same_length_inj in E; [now apply Hne|].
+    now rewrite !file_tail_length.
+  Qed.
+
+  Theorem sibling_subcaches_never_share c n1 n2 fs k1 k2 comp force fs' out n :
+    n1 <> n2 ->
+    cache_get_or_compute H (subcache c n2) fs k2 comp force = (fs', out, n) ->
+    cache_get H (subcache c n1) fs' k1 = cache_get H (subcache c n1) fs k1.
+  Proof.
+    intros Hne E. unfold cache_get.
+    rewrite (other_paths_untouched _ _ _ _ _ _ _ _ _ E); [reflexivity|now apply sibling_subcaches_disjoint].
+  Qed.
+
   (* hence operations on distinct keys, or on a cache and one of its sub-caches, never see each other *)
   Theorem distinct_keys_never_share c fs k1 k2 comp force fs' out n :
     (H k1 = H k2 -> k1 = k2) -> k1 <> k2 ->
